@@ -48,6 +48,8 @@ def mk_index(e):
     out = []
     for it in e:
         out.append(it[1] if it[0] == "int" else (slice(it[1], it[2], it[3]) if it[0] == "slice" else Ellipsis))
+    if len(out) == 1:
+        return out[0]              # a single item is written the way users write it: da[0], da[1:3], da[...]
     return tuple(out)
 
 
